@@ -1,12 +1,40 @@
-"""C11  (shared soup driver)
+"""C11  copy_all, forced or as fallback, keeps the whole text in exactly one tract.
 
-spec/PlssDesc.tla       token-level input space (every token sequence x configuration)
-spec/ObsInvariants.tla  Returned / AtLeastOneTract
-spec/PlssDescTrace.tla  verdicts
+spec/PlssDesc.tla       MustFallBack / BothFound per (token sequence, configuration)
+spec/ObsInvariants.tla  ClauseC11
 """
-from .. import core, plsssoup
+from .. import core, plssdoc, plsssoup, plsstok, soup
 
 PROP = "C11"
+FORCED = {"forced_copy_all": True, "must_fall_back": True, "both_found": True}
+
+
+def forced_cases(ctx, shapes, n_soup):
+    cases = []
+    k = 0
+    for a in shapes:
+        doc = plssdoc.concretise(a, ctx.rng)
+        text = plssdoc.render_doc(doc, ctx.rng)
+        for ch in plsstok.CHANNELS:
+            cfg = ctx.rng.choice([None, "segment", "sec_within", "sec_colon_required", "parse_qq", "segment,sec_colon_cautious"])
+            cases.append({"id": "c%d" % k, "kind": "plss", "origin": "forced copy_all on a document",
+                          "abs": {"x": FORCED},
+                          "args": {"text": text, "config": cfg, "layout": "copy_all", "layout_channel": ch, "source": "SRC-1"}})
+            k += 1
+    for i in range(n_soup):
+        text = soup.rand_text(ctx.rng)
+        r = ctx.rng.random()
+        if r < 0.5:
+            cfg = soup.rand_config(ctx.rng)
+            if cfg and any(l in cfg.split(",") for l in soup.LAYOUTS):
+                cfg = None
+            cases.append({"id": "q%d" % i, "kind": "plss", "origin": "forced copy_all on soup", "abs": {"x": FORCED},
+                          "args": {"text": text, "config": cfg, "layout": "copy_all",
+                                   "layout_channel": ctx.rng.choice(plsstok.CHANNELS), "source": "SRC-1"}})
+        else:
+            cases.append({"id": "q%d" % i, "kind": "plss", "origin": "soup", "abs": {},
+                          "args": {"text": text, "config": soup.rand_config(ctx.rng), "source": "SRC-1"}})
+    return cases
 
 
 def run(ctx):
@@ -14,7 +42,22 @@ def run(ctx):
     cases = plsssoup.model_cases(ctx, 4 if thorough else 3, plsssoup.ALL_CONFIGS, keep=0.5 if thorough else 1.0)
     ctx.exhaustive = not thorough
     plsssoup.judge(ctx, PROP, cases)
-    ctx.rule = "token sequences x configurations of spec/PlssDesc.tla"
+    more = plsssoup.model_cases(ctx, 5, ["default", "segment", "required", "seg_required", "f_copy_all", "f_copy_seg"],
+                                keep=0.5 if thorough else 0.2, check_model=False, prefix="k", alphabet="core", minlen=4)
+    plsssoup.judge(ctx, PROP, more)
+    res = ctx.tlc("PlssDoc", {"MaxGroups": 2, "MaxSecs": 2, "TRIds": {1, 2}, "Fault": "none", "EmitCases": True},
+                  invariants=["EmitCase"], workers=1, count=False)
+    shapes = [a for a in res.cases if ctx.rng.random() < (0.6 if thorough else 0.1)]
+    plsssoup.judge(ctx, PROP, forced_cases(ctx, shapes, 30000 if thorough else 4000))
+    ctx.rule = ("(a) token sequences of spec/PlssDesc.tla up to %d tokens x 15 configurations with the model's MustFallBack / "
+                "BothFound verdict per case (forced copy_all via keyword / config / parse argument; no Twp/Rge; no section; "
+                "every section rejected), (b) core-alphabet sequences of 4..5 tokens, (c) multi-tract documents and seeded soup "
+                "with copy_all forced through each channel, (d) soup with deduced layouts (never two whole-text tracts; "
+                "deduced copy_all => one whole-text tract); non-trivial = distinct (text, configuration, channel)"
+                % (4 if thorough else 3))
+    ctx.assumptions += ["'the entire preprocessed text' is compared up to what cleanup_desc() strips at the two ends "
+                        "(punctuation, blanks, the/all/of/in/and)",
+                        "with `segment`, the fallback clause is claimed when the whole text deduces to copy_all (R3)"]
 
 
 def replay(ctx, payload):
